@@ -94,7 +94,9 @@ SlotOf(K, m, t, fn, j, c) ==
 (* named deviation FlattenSameOpBoolOp: a BoolOp put as an operand of a      *)
 (* template BoolOp with the same operator is spliced, not nested             *)
 (* (match.py: "results simpler to put as slice if same op"): `a and b` into  *)
-(* `__FST_x and c` gives `a and b and c`, not `(a and b) and c`.              *)
+(* `__FST_x and c` gives `a and b and c`, not `(a and b) and c`.  The pure    *)
+(* reading (nested) is what the property literally says, so FillRel accepts  *)
+(* both results there (the only place where the relation is not functional). *)
 FlattenSameOpBoolOp(K, m, t, fn, g) ==
   /\ NKind(t) = "BoolOp" /\ fn = "values" /\ CapT(K, m, g) = "node"
   /\ LET x == IF g = "" THEN K.M[m].x ELSE CapOf(K, m, g).el[1][1].s
@@ -126,17 +128,17 @@ CapItems(K, m, g, list, comp) ==
        ELSE Flatten([i \in 1..Len(cap.el) |->
                        ElemItems(K, m, cap.el[i][IF comp <= Len(cap.el[i]) THEN comp ELSE 1], list)])
 
-SlotExpand(K, m, t, fn, j, c, list) ==
+SlotExpand(K, m, t, fn, j, c, list, flat) ==
   LET s == SlotOf(K, m, t, fn, j, c) IN
   IF s.g = "-" THEN <<Tmpl(c, m)>>
-  ELSE IF s.form = "expr" /\ FlattenSameOpBoolOp(K, m, t, fn, s.g)
+  ELSE IF flat /\ s.form = "expr" /\ FlattenSameOpBoolOp(K, m, t, fn, s.g)
        THEN LET e == IF s.g = "" THEN [s |-> K.M[m].x, p |-> K.M[m].p] ELSE CapOf(K, m, s.g).el[1][1]
             IN Children(K, m, e.s, e.p, "values", TRUE)
   ELSE CapItems(K, m, s.g, list \/ s.form \in {"stmt", "with", "pair"}, s.comp)
 
-RawFieldItems(K, m, t, fn) ==
+RawFieldItems(K, m, t, fn, flat) ==
   LET c == FieldC(t, fn)  l == IsListField(NKind(t), fn)
-  IN Flatten([j \in 1..Len(c) |-> SlotExpand(K, m, t, fn, j, c[j], l)])
+  IN Flatten([j \in 1..Len(c) |-> SlotExpand(K, m, t, fn, j, c[j], l, flat)])
 
 (* Call / ClassDef: positional arguments and keywords are one syntactic       *)
 (* sequence (`_args`, `_bases`); a captured keyword put into a slot among the *)
@@ -144,12 +146,12 @@ RawFieldItems(K, m, t, fn) ==
 (* keywords (a slot Name among the arguments always precedes them).           *)
 IsKw(it) == it.t \in {"fix", "rec"} /\ NKind(it.x) = "keyword"
 ArgField(t) == IF NKind(t) = "Call" THEN "args" ELSE "bases"
-TmplFieldItems(K, m, t, fn) ==
+TmplFieldItems(K, m, t, fn, flat) ==
   IF NKind(t) \in {"Call", "ClassDef"} /\ fn = ArgField(t)
-    THEN SelectSeq(RawFieldItems(K, m, t, fn), LAMBDA it : ~IsKw(it))
+    THEN SelectSeq(RawFieldItems(K, m, t, fn, flat), LAMBDA it : ~IsKw(it))
   ELSE IF NKind(t) \in {"Call", "ClassDef"} /\ fn = "keywords"
-    THEN SelectSeq(RawFieldItems(K, m, t, ArgField(t)), IsKw) \o RawFieldItems(K, m, t, "keywords")
-  ELSE RawFieldItems(K, m, t, fn)
+    THEN SelectSeq(RawFieldItems(K, m, t, ArgField(t), flat), IsKw) \o RawFieldItems(K, m, t, "keywords", flat)
+  ELSE RawFieldItems(K, m, t, fn, flat)
 
 (* the template at the place of the match: `list` = the match is an element   *)
 (* of a list field (several statements may then replace one)                  *)
@@ -183,7 +185,8 @@ ItemsRel(K, its, ys) == Len(its) = Len(ys) /\ \A j \in 1..Len(its) : ItemRel(K, 
 FillRel(K, t, y, m) ==
   /\ SameShape(t, y)
   /\ \A i \in 1..Len(NFields(t)) :
-       ItemsRel(K, TmplFieldItems(K, m, t, NFields(t)[i].n), NFields(y)[i].c)
+       \/ ItemsRel(K, TmplFieldItems(K, m, t, NFields(t)[i].n, TRUE), NFields(y)[i].c)
+       \/ NKind(t) = "BoolOp" /\ ItemsRel(K, TmplFieldItems(K, m, t, NFields(t)[i].n, FALSE), NFields(y)[i].c)
 
 PreItems(K, x, p, f) ==
   Flatten([j \in 1..Len(f.c) |->
